@@ -202,6 +202,39 @@ CHECKS.update({
         note=TRUST),
 })
 
+# rules added in the strengthening rounds (DESIGN.md 12); appended to the level text of the property's check
+ADDENDA = {
+    'C01': ' Also: registrations computed at import time (loops over vars()/dir()) and fan-out to a computed set of classes are '
+           'reported as "table not provably closed" (R-TABLE-CLOSED / R-FANOUT dynamic).',
+    'C02': ' Also: emitter simple-key bound x worst-case escape expansion vs the scanner\'s key window (R-SIMPLE-KEY-FITS, one '
+           'known finding); indentation indicator for every leading space/break (R-BLOCK-HINT-LEADING); per-character '
+           'evaluation of the scalar analysis for BOM / non-printables / non-ASCII (R-ANALYZE-SPECIAL).',
+    'C03': ' Also: parameters bound to the literal None by a caller are not dereferenced unguarded (R-NONE-DEREF).',
+    'C04': ' Also: getattr in find_python_name is applied to the module object only, never along an attribute chain '
+           '(R-GETATTR-CHAIN); the unsafe switch is bound, by keyword or position, only to False or forwarded (R-UNSAFE-FLAG).',
+    'C05': ' Also: per-event caches are cleared on every exit of the process_* methods (R-EVENT-CACHE-RESET); tag-prefix table '
+           'rebuilt per document (R-EMITTER-DOC-RESET); R-BLOCK-HINT-LEADING.',
+    'C06': ' Also: document markers are recognised at column 0 only (R-DOCMARKER-COLUMN0, a forward dataflow over the scanner '
+           'CFGs); end of input only on an empty read (shared R-INCREMENTAL-DECODE); the pushdown model extracted from the '
+           'parser\'s state methods accepts exactly the sentences of the documented grammar up to length 6 (quick) / 8 '
+           '(thorough) (R-PARSER-GRAMMAR).',
+    'C07': ' Also: what the decoder returned is appended to the buffer unmodified (R-DECODED-UNMODIFIED, reaching definitions).',
+    'C08': ' re.IGNORECASE and inline case variants are modelled.',
+    'C09': ' Also: get_mark builds a fresh Mark from index/line/column (R-MARK-FROM-POSITION); R-DOCMARKER-COLUMN0; '
+           'R-PARSER-GRAMMAR (model of the parser state machine vs the documented grammar, both inclusions, bounded length).',
+    'C10': ' Also: every normal path through an add_* classmethod establishes ownership (R-COW-ALL-PATHS); fan-out targets '
+           'are resolved through loops, helper functions and generators, a computed set of targets is a violation.',
+    'C11': ' Also: R-EMITTER-DOC-RESET; no function changes interpreter-wide settings (R-NO-PROCESS-STATE).',
+    'C13': ' Also: construct_sequence/mapping/pairs forward their deep argument (R-DEEP-FORWARDED).',
+    'C15': ' Also: R-ANALYZE-SPECIAL and R-EMITTER-DOC-RESET.',
+    'C16': ' Also: R-CONSTRUCT-CACHE (the loader gives back the sharing the dump wrote, for every node kind).',
+    'C17': ' Also: both halves of a (dict, slots) state are applied on every path (R-STATE-APPLIED), the dict half through '
+           '__dict__.update (R-DICT-STATE-DIRECT); the compact python/object: form only for __newobj__ reductions (R-NEWOBJ-FORM).',
+    'C18': ' Also: one stream.read per refill (R-SINGLE-READ); the dispose() the API calls releases every component\'s state '
+           '(R-DISPOSE-CHAIN).',
+    'C19': ' Also: R-NO-PROCESS-STATE and R-DISPOSE-CHAIN; the two enumerated handlers are recognised by shape, not by function name.',
+}
+
 NOT_APPLICABLE = {
     'C12': 'Whether ---/... are written where needed depends on run-time values (open_ended, explicit/version/tags of the '
            'event, the last scalar\'s text and style, and one case inside libyaml); there is no invariant of the code\'s shape '
@@ -228,7 +261,7 @@ def build():
             'evidence_file': '/verif/evidence/%s.json' % pid,
             'replay_cmd_template': '%s -m checks.%s --replay {path}' % (PY, pid.lower()),
             'engine': 'sa',
-            'level_claimed': {'category': c['level'], 'text': c['text'], 'design_ref': c['design']},
+            'level_claimed': {'category': c['level'], 'text': c['text'] + ADDENDA.get(pid, ''), 'design_ref': c['design']},
             'level_note': c['note'],
             'technique': 'static analysis: ' + c['technique'],
         })
@@ -258,9 +291,12 @@ def build():
             'name': 'sa', 'path': '/verif/sa',
             'serves_properties': sorted(claimed),
             'kind_free_text': 'repository-specific static analyser (stdlib only): source model with C3 MRO and star-import '
-                              'resolution, statement CFGs with dominance queries, registry reconstruction, abstract '
+                              'resolution, source normalisation (helper inlining, constant substitution, canonical conditions), '
+                              'short-circuit-lowered statement CFGs with dominance / reaching-definition queries, AST patterns with '
+                              'metavariables, registry reconstruction, abstract '
                               'interpretation of the constructor family, effect/alias analysis, regular-language analysis '
-                              'of the resolver regexes, line-preserving lowering of _yaml.pyx',
+                              'of the resolver regexes, a pushdown model of the parser compared with the documented grammar, '
+                              'line-preserving lowering of _yaml.pyx',
         }],
         'checks': checks,
         'not_applicable': na,
